@@ -21,7 +21,7 @@ func runC06(r *engine.Run) {
 	r.Rule("DEP-walk", "in StateCache.Get every block hash used to look into the per-key map or the link map is the queried hash or the link stored for the previously used hash (no other source); a memoised entry is stored under the queried hash and is the entry found")
 	r.Rule("WHO-readonly", "the lookups of the transaction cache and of the block cache (and everything they reach in those types) never store into their own pending map: a pending map is a write set that Commit publishes, so a memoised read would be flushed as a write and overwrite another transaction's committed write")
 	r.Rule("ORDER-publish", "see C08: a block's ancestor link is published only after all of the block's keys are written (a lookup that runs during the commit must not walk past the half-written block)")
-	r.Rule("KEY-same", "Set/setValue/remove/commit store an entry under the key (and block hash) they were given; the tombstone arms store deleted=true")
+	r.Rule("KEY-same", "Set/setValue/remove/commit store an entry under the key (and block hash) they were given; the tombstone arms store deleted=true; Set stores a new composite with deleted=false, never the entry found under the key with its data replaced (it may be a tombstone)")
 	r.Rule("DOM-writekept", "a write or removal handed to a cache layer (TransactionCache.Set/Remove, BlockCache.Set/setValue/remove) is recorded in that layer's pending map on every feasible path to every return (a store under the key parameter), and these methods never delete from the pending map: a dropped tombstone lets an ancestor's value show through")
 	r.Rule("CAP-absence", "the ancestor walk reads a missing entry in a key's versions map as 'that block did not write the key'; every container installed as a versions map (provenance of the value handed to StateCache.cache.Add) therefore must not be a plain capacity-bounded LRU (whose eviction order is the recency of lookups, so an old entry can outlive newer ones) unless it observes its evictions (constructed with an eviction callback)")
 	r.Rule("CLONE-boundary", "see C07: every value a lookup hands out is a Clone() of the stored one - a caller that edits a looked-up value in place must not change what the ancestor block or a sibling fork returns")
@@ -508,6 +508,9 @@ func keySame(r *engine.Run) {
 		if m.name == "Remove" || m.name == "remove" {
 			tombstoneStored(r, rule, f)
 		}
+		if m.name == "Set" {
+			liveStored(r, rule, f)
+		}
 	}
 	// TransactionCache.Commit forwards its own pairs
 	if f := r.Fn(rule, pkgSC, "TransactionCache", "Commit"); f != nil {
@@ -619,6 +622,56 @@ func keySame(r *engine.Run) {
 		}
 	}
 	r.Min(rule, 10)
+}
+
+// liveStored: the entry a Set stores is built from this call alone - a new
+// composite whose deleted flag is left (or set) false - never the entry found
+// under the key with its data replaced: that one may be the tombstone of an
+// earlier Remove in the same transaction, and the write would be committed as
+// a removal.
+func liveStored(r *engine.Run, rule string, f *ssa.Function) {
+	o := ord{}
+	engine.Instrs(f, func(in ssa.Instruction) {
+		mu, ok := in.(*ssa.MapUpdate)
+		if !ok {
+			return
+		}
+		cons := o.next(fn(f) + "|live entry")
+		ld, isLoad := mu.Value.(*ssa.UnOp)
+		if !isLoad {
+			r.Fail(rule, cons, r.P.Pos(mu.Pos()), "Set stores an entry it did not build itself")
+			return
+		}
+		al, isAlloc := engine.AddrRoot(ld.X).(*ssa.Alloc)
+		if !isAlloc {
+			r.Undec(rule, cons, r.P.Pos(mu.Pos()), "stored entry is not a local composite")
+			return
+		}
+		bad := ""
+		for _, ref := range engine.Referrers(al) {
+			switch x := ref.(type) {
+			case *ssa.Store:
+				if x.Addr == ssa.Value(al) { // the whole entry assigned from somewhere
+					if _, isConst := x.Val.(*ssa.Const); !isConst {
+						bad = "the stored entry starts as a copy of another entry (" + r.P.Pos(x.Pos()) + ")"
+					}
+				}
+			case *ssa.FieldAddr:
+				if engine.FieldOf(x).Name() != "deleted" {
+					continue
+				}
+				for _, r2 := range engine.Referrers(x) {
+					if st, ok := r2.(*ssa.Store); ok {
+						if c := constVal(st.Val); c == nil || c.ExactString() != "false" {
+							bad = "the deleted flag of the stored entry is set to something other than false"
+						}
+					}
+				}
+			}
+		}
+		r.Check(bad == "", rule, cons, r.P.Pos(mu.Pos()), "Set stores a new entry with deleted=false",
+			"Set does not store a new live entry: "+bad+" - a Set that follows a Remove of the same key in one transaction inherits the tombstone flag, and the write is committed as a removal (lookups at the block and its descendants miss the block's own write)")
+	})
 }
 
 // tombstoneStored: every entry stored by a remove method has deleted=true.
